@@ -781,12 +781,12 @@ class C06InExplainerOracle(BaseOracle):
                         return self.v("not-the-default", "feature %r: model input %r, configured default %r"
                                       % (f, inp[f], -(j + 1)), cls=name)
             elif c["icfg"].get("strategy", "joint") == "joint":
-                if S and not any(all(inp[f] == r[f] for f in S) for r in rows):
+                if S and not any(all(f in r and inp[f] == r[f] for f in S) for r in rows):
                     return self.v("joint-not-one-row", "imputed values %r are not those of one stored row (rows %r)"
                                   % ({f: inp[f] for f in S}, rows), cls=name)
             else:
                 for f in S:
-                    if not any(inp[f] == r[f] for r in rows):
+                    if not any(f in r and inp[f] == r[f] for r in rows):
                         return self.v("value-not-stored", "feature %r imputed with %r which no stored row has" % (f, inp[f]),
                                       cls=name)
         if not S:
